@@ -1141,4 +1141,4 @@ func writeEvidence(o CheckOpts, a *agg, scs []*Scenario, explored, wall time.Dur
 }
 
 var componentsReal = []string{"alloc", "bitmap", "config", "crypto", "hash", "http (handlers)", "fuse (node methods)", "known", "mono", "path", "peer", "peer/requests", "pex", "protocol", "rate", "tor", "tor/piece", "tracker", "webseed", "httpclient (client cache only)", "github.com/zeebo/bencode", "Go standard library above the socket layer"}
-var componentsStub = []string{"TCP/UDP sockets (simnet)", "net/http.Transport and origin servers (simhttp)", "remote BitTorrent peers (refpeer, independent codec + MSE)", "trackers (reftracker)", "web seeds (refweb)", "DHT library (repo's own no-cgo stub, calls observed)", "package main (flag parsing, port mapping, signal handling) not run", "FUSE kernel protocol not run", "finalizers not run"}
+var componentsStub = []string{"TCP/UDP sockets (simnet)", "net/http.Transport and origin servers (simhttp)", "remote BitTorrent peers (refpeer, independent codec + MSE)", "trackers (reftracker)", "web seeds (refweb)", "DHT library (repo's own no-cgo stub, calls observed)", "package main (flag parsing, port mapping, signal handling) not run", "FUSE kernel protocol not run", "finalizers not run", "sync.Pool (a per-run stack: last put, first handed out)", "crypto/sha1.Sum computes the real digest and, in half of the runs, takes 0.1-200 ms of simulated time", "capacities of the four buffered queues of peer and tor: the code's own in 7 runs of 8, shortened in the eighth (simrt.Knob)"}
